@@ -4,8 +4,9 @@ set -e
 N="$1"
 rm -rf /tmp/vw-$N
 cp -r /verif /tmp/vw-$N
-rm -rf /tmp/vw-$N/.git
+rm -rf /tmp/vw-$N/.git /tmp/vw-$N/replays/* /tmp/vw-$N/seeded
 git -C /repo worktree remove --force /tmp/rw-$N 2>/dev/null || true
+git -C /repo worktree prune
 git -C /repo worktree add --detach /tmp/rw-$N HEAD >/dev/null
 sed -i "s#=> /repo/hermes#=> /tmp/rw-$N/hermes#" /tmp/vw-$N/harness/go.mod
 echo "export VERIF_DIR=/tmp/vw-$N VERIF_REPO=/tmp/rw-$N"
